@@ -18,7 +18,7 @@ TRUSTED = [
 ASSUMPTIONS = ["no call times out (excluded by the property); one application thread per client"]
 RULE = ("sequences of 3..12 calls per client over {fast, slow (callLater), failing, asynchronously failing, None-returning, server-identifying} operations, "
         "issued before or after the connection is established, one client or two clients driven concurrently from two threads against two servers, "
-        "and clients whose connection is refused; non-trivial = distinct call sequence containing a failing or None-returning call followed by another call")
+        "and clients whose connection cannot be established (TCP connection refused, or a server that insists on VNC authentication while no password was given); non-trivial = distinct call sequence containing a failing or None-returning call followed by another call")
 
 
 class Server(threading.Thread):
@@ -33,6 +33,7 @@ class Server(threading.Thread):
         self.port = self.sock.getsockname()[1]
         self.stop = False
         self.delay = 0.0
+        self.auth = False
 
     def run(self):
         self.sock.settimeout(0.2)
@@ -49,6 +50,21 @@ class Server(threading.Thread):
         try:
             conn.settimeout(5)
             time.sleep(self.delay)
+            if self.auth:
+                # a server that insists on VNC authentication (RFB 3.8): the password-less client cannot establish the session
+                conn.sendall(b"RFB 003.008\n")
+                buf = b""
+                while len(buf) < 12:
+                    buf += conn.recv(64)
+                conn.sendall(bytes([1, 2]))
+                conn.recv(1)
+                conn.sendall(bytes(range(16)))
+                conn.settimeout(2)
+                try:
+                    conn.recv(64)
+                except socket.timeout:
+                    pass
+                return
             conn.sendall(b"RFB 003.003\n")
             buf = b""
             while len(buf) < 12:
@@ -148,8 +164,14 @@ def drive(cl, srvname, calls, out, pre_delay):
 
 def run(ctx):
     r = ctx.rng
+    # Failures of refused connections that nobody consumes are reported by Twisted when they are garbage collected
+    # ("Unhandled error in Deferred"), possibly after the verdict line: send Twisted's log nowhere
+    from twisted.python import log as tlog
+    tlog.startLoggingWithObserver(lambda event: None, setStdout=False)
     srvA, srvB = Server("srvA"), Server("srvB")
-    srvA.start(); srvB.start()
+    srvAuth = Server("srvAuth")
+    srvAuth.auth = True
+    srvA.start(); srvB.start(); srvAuth.start()
     dead = socket.socket(); dead.bind(("127.0.0.1", 0)); deadport = dead.getsockname()[1]; dead.close()   # nobody listens there
     kinds = ["op_fast", "op_slow", "op_fail", "op_afail", "op_none"]
     try:
@@ -157,7 +179,10 @@ def run(ctx):
         lines, meta = [], []
         for si in range(n):
             two = r.random() < .5
-            refused = r.random() < .15
+            refused = r.random() < .25
+            how_refused = r.choice(["tcp", "auth"]) if refused else None
+            if si == 3:
+                refused, how_refused = True, "auth"
             del LOG[:]
             specs = []
             for ci in range(2 if two else 1):
@@ -170,7 +195,7 @@ def run(ctx):
             clients, outs, threads = [], [], []
             for ci, calls in enumerate(specs):
                 srv = (srvA, srvB)[ci]
-                port = deadport if (refused and ci == 0) else srv.port
+                port = (deadport if how_refused == "tcp" else srvAuth.port) if (refused and ci == 0) else srv.port
                 cl = api.connect("127.0.0.1::%d" % port, factory_class=ProbeFactory, timeout=8)
                 clients.append(cl)
                 out = []
@@ -187,14 +212,14 @@ def run(ctx):
                     cl.disconnect()
                 except Exception:  # noqa
                     pass
-            rp = {"input": {"calls": specs, "two_clients": two, "connection_refused_for_client_0": refused},
+            rp = {"input": {"calls": specs, "two_clients": two, "connection_refused_for_client_0": refused, "how": how_refused},
                   "how": "vncdotool.api.connect with the real reactor thread against loopback RFB servers; a probe client class provides the operations"}
             nt = any(k in ("op_fail", "op_afail", "op_none") for calls in specs for k in calls[:-1])
             ctx.case({"calls": specs, "refused": refused, "returned": [[list(map(str, o))[:2] for o in out][:4] for out in outs]} if len(ctx.samples) < 3 and nt else None,
                      key=repr((specs, refused)) if nt else None)
             ctx.count("two_clients" if two else "one_client")
             if refused:
-                ctx.count("refused")
+                ctx.count("refused_" + how_refused)
             if hung:
                 ctx.violate("call-blocks", dict(rp, observed="an application thread is still blocked after 120 s"))
                 continue
@@ -209,7 +234,7 @@ def run(ctx):
                     got = out[tag]
                     if refused and ci == 0:
                         if got[0] != "err" or got[1] == "OpError":
-                            ctx.violate("refused-does-not-raise", dict(rp, observed="client %d call %d returned %r although the connection was refused" % (ci, tag, got)))
+                            ctx.violate("refused-does-not-raise", dict(rp, observed="client %d call %d gave %r although the connection could not be established (it must raise, not block until the timeout)" % (ci, tag, got)))
                             ok = False
                             break
                         continue
@@ -253,9 +278,9 @@ def run(ctx):
                 if mo != "ok " + ";".join(want):
                     ctx.disagree("model-vs-api", {"input": rp["input"], "impl": ";".join(want), "model": mo})
     finally:
-        srvA.stop = srvB.stop = True
+        srvA.stop = srvB.stop = srvAuth.stop = True
         try:
             api.shutdown()
         except Exception:  # noqa
             pass
-        srvA.sock.close(); srvB.sock.close()
+        srvA.sock.close(); srvB.sock.close(); srvAuth.sock.close()
